@@ -520,7 +520,7 @@ impl Check for C02 {
         "C02"
     }
     fn rule(&self) -> String {
-        "proptest-generated sandbox: 1-3 sources (trees of depth<=4 with files, dirs, relative/absolute/dangling/outward symlinks, names with spaces, unicode, leading dots, '~', backup-like names and non-UTF-8 bytes below the top level; single files; sources that are themselves symlinks), destination absent / file / empty dir / pre-populated (same, differing, kind-changed entries, extras) / populated by a real earlier xcp run followed by source edits; path spellings (./, absolute, by/.., trailing slash, //), -T, --target-directory, --glob patterns, both drivers, workers, block sizes. Oracle: whole-sandbox lstat/readlink/content snapshot after exit 0 must equal the reference model's overlay of the pre-state (every mapped entry has the source's kind, bytes, link text; every other entry unchanged; nothing new). Non-trivial: exit 0 and (links or depth>=2 or populated destination or glob or >=2 sources).".into()
+        "proptest-generated sandbox: 1-3 sources (trees of depth<=4 with files, dirs, relative/absolute/dangling/outward symlinks, names with spaces, unicode, leading dots, '~', backup-like names and non-UTF-8 bytes below the top level; single files; sources that are themselves symlinks), destination absent / file / empty dir / pre-populated (same, differing, kind-changed entries, extras) / populated by a real earlier xcp run followed by source edits; path spellings (./, absolute, by/.., trailing slash, //), -T, --target-directory, --glob patterns, both drivers, workers, block sizes, fifo/socket entries inside trees, option noise (--fsync --no-perms --no-timestamps --backup=numbered|auto --ownership). Oracle: whole-sandbox lstat/readlink/content snapshot after exit 0 must equal the reference model's overlay of the pre-state (every mapped entry has the source's kind, bytes, link text; every other entry unchanged; nothing new). Non-trivial: exit 0 and (links or depth>=2 or populated destination or glob or >=2 sources).".into()
     }
     fn assumptions(&self) -> Vec<String> {
         vec!["reference model = cp -R mapping rule as stated in the property; excluded by construction: destination symlinks at mapped positions, sources with identical basenames, glob patterns without matches".into()]
